@@ -16,7 +16,10 @@ VARIABLE st
 OutFile == IF "GEN_OUT" \in DOMAIN IOEnv THEN IOEnv.GEN_OUT ELSE "/dev/null"
 
 Q(s) == [i \in DOMAIN s |-> FromInt(s[i])]
-DGrids == {Q(<<0, 1>>), Q(<<0, 1, 2>>), Q(<<-1, 0, 3>>), <<R(0, 1), R(1, 2), R(1, 1), R(3, 1)>>, Q(<<0, 1, 2, 3, 4>>)}
+\* incl. few intervals of very different length (short boundary intervals): basis functions far apart in
+\* the index still overlap noticeably there
+DGrids == {Q(<<0, 1>>), Q(<<0, 1, 2>>), Q(<<-1, 0, 3>>), <<R(0, 1), R(1, 2), R(1, 1), R(3, 1)>>, Q(<<0, 1, 2, 3, 4>>),
+           <<R(0, 1), R(1, 64), R(1, 1), R(65, 64)>>, <<R(0, 1), R(1, 100), R(1, 1), R(2, 1), R(201, 100)>>}
             \cup (IF Thorough THEN {Q(<<0, 2, 3, 4, 7, 8, 9>>), [i \in 1..11 |-> R(i - 1, 2)]} ELSE {})
 DVals == {ROne, R(1, 2), RTwo, FromInt(3)}
 \* piecewise constant coefficient patterns over m intervals
